@@ -22,6 +22,9 @@ RE_FSYNC = re.compile(r'^\d+\s+f(?:data)?sync\((\d+)\)\s+= 0')
 RE_CLOSE = re.compile(r'^\d+\s+close\((\d+)\)\s+= 0')
 
 
+TMPNAME = {}     # target -> the real name of the temporary file seen in the last trace (a repeated save looks for it)
+
+
 def parse_trace(path, dirpath, target):
     ops, fds = [], {}
 
@@ -29,6 +32,8 @@ def parse_trace(path, dirpath, target):
         b = os.path.basename(p)
         if os.path.dirname(p).rstrip("/") != dirpath.rstrip("/"):
             return None
+        if b.startswith(target + ".tmp"):
+            TMPNAME[target] = b
         return "target" if b == target else ("tmp" if b.startswith(target + ".tmp") else "other:" + b)
     for line in open(path):
         m = RE_OPEN.match(line)
@@ -71,7 +76,7 @@ def materialise(pre_dir, dst, ops, pos, k, new_data, target):
     off = {}
 
     def path(c):
-        return os.path.join(dst, target if c == "target" else (target + ".tmp.crash" if c == "tmp" else c.split(":", 1)[1]))
+        return os.path.join(dst, target if c == "target" else (TMPNAME.get(target, target + ".tmp.crash") if c == "tmp" else c.split(":", 1)[1]))
     todo = ops[:pos] + ([dict(ops[pos], n=k)] if k else [])
     for o in todo:
         if o["op"] == "open_trunc":
@@ -131,6 +136,7 @@ def run(res, prop, tier, seed, work, replay=None):
             if o["op"] == "write" and o["n"] > 1:
                 points += [(i, 1), (i, o["n"] // 2), (i, o["n"] - 1)]
         recs = os.path.join(work, kind, "recs.ndjson")
+        nrec = 0
         with open(recs, "w") as fh:
             for pos, k in points:
                 img = os.path.join(work, kind, "img")
@@ -142,8 +148,23 @@ def run(res, prop, tier, seed, work, replay=None):
                     ans = {"ok": False, "content": "", "err": "loader crashed: " + (q.stdout or "")[-200:]}
                 r = {"kind": kind, "pos": pos, "k": k, "ok": bool(ans.get("ok")), "content": ans.get("content", ""), "err": ans.get("err", "")[:200],
                      "next": ops[pos]["op"] + ":" + ops[pos]["file"] if pos < len(ops) else "done"}
+                r["again"] = False
                 images.append(r)
                 fh.write(json.dumps(r) + "\n")
+                nrec += 1
+                if kind in ("wallet", "kv"):
+                    # the user (or the node) simply does the same thing again after the restart: that save must take effect,
+                    # whatever the crashed one left behind (its temporary file, under its real name, is still there)
+                    vlib.run([binary, save, img], timeout=120, check=False)
+                    q = vlib.run([binary, load, img], timeout=120, check=False)
+                    try:
+                        ans = json.loads((q.stdout or "").strip().splitlines()[-1])
+                    except Exception:
+                        ans = {"ok": False, "content": "", "err": "loader crashed: " + (q.stdout or "")[-200:]}
+                    r2 = dict(r, again=True, ok=bool(ans.get("ok")), content=ans.get("content", ""), err=ans.get("err", "")[:200])
+                    images.append(r2)
+                    fh.write(json.dumps(r2) + "\n")
+                    nrec += 1
         # TLC on the recorded program (all crash points, abstractly) ...
         t = vlib.run_tlc(SPEC, "FileSave", "FileSave.cfg", os.path.join(work, kind, "tlc_prog"), files={"ops.ndjson": opsf}, timeout=600)
         total_states += t["distinct"]
@@ -153,18 +174,20 @@ def run(res, prop, tier, seed, work, replay=None):
                                          data_name="recs.ndjson", chunk=5000) if False else (None, None)
         r2 = vlib.run_tlc(SPEC, "FileSaveRecords", "FileSaveRecords.cfg", os.path.join(work, kind, "tlc_recs"), files={"ops.ndjson": opsf, "recs.ndjson": recs}, timeout=600)
         cmd = r2["cmd"]
-        if r2["violated"] or r2["distinct"] != len(points):
+        if r2["violated"] or r2["distinct"] != nrec:
             raise Infra("image oracle failed: " + r2["tail"][-800:])
         bad = 0
         for m in r2["mismatches"]:
             parts = [x.strip().strip('"') for x in m.strip("<>").split(",")]
-            rec = images[len(images) - len(points) + int(parts[2]) - 1]
+            rec = images[len(images) - nrec + int(parts[2]) - 1]
             if parts[4].startswith("MODEL:"):
                 if spec_says_safe:
                     raise Infra("FileSave.tla and the real loader disagree on a crash image (model defect): %s %s" % (parts[4], json.dumps(rec)))
                 continue   # the model predicts an unrecoverable image and reality agreed in another record
             bad += 1
             sig = "filesave:%s:%s:before-%s" % (kind, parts[4], rec["next"])
+            if rec.get("again"):
+                sig += ":save-repeated"
             rp = vlib.save_replay(work, "C20_%s_%d_%d.json" % (kind, rec["pos"], rec["k"]), {"engine": "filesave", "signature": sig, "seed": seed, "tier": tier, "ops": ops, "image": rec})
             res.mismatch("C20", sig, "%s save: a crash after %d operations (+%d bytes of the next write, next = %s) leaves a directory the node loads as ok=%s content=%s %s"
                          % (kind, rec["pos"], rec["k"], rec["next"], rec["ok"], rec["content"], rec["err"][:100]), rp)
